@@ -94,7 +94,12 @@ def val(k):
 
 
 # ------------------------------------------------------------------ program generation (Hypothesis)
-def program_strategy():
+def program_strategy(mode=None):
+    """mode None: free program.  Quota modes (a fixed number of such programs goes into every TU):
+    "colrow": a mutable whole column_view<I>() / row_view<I>() of a NON-SQUARE host tmatrix is
+              written (destination) or read (non-const operand);
+    "scalar_alias": the scalar operand of scalar*obj / obj*scalar / obj/scalar is an lvalue element
+              of the destination (not its last component), spelled dest(i) / dest[i] / view_of_dest(i)."""
     from hypothesis import strategies as st
 
     @st.composite
@@ -109,18 +114,25 @@ def program_strategy():
         booleans = lambda: rnd.random() < 0.5
         family = pick(["tvector", "tvector", "tvector", "tmatrix", "tmatrix", "tmatrix", "stensor", "stensor", "tensor",
                        "st2tost2", "vector", "runtime_array", "fsarray"])
+        if mode == "colrow":
+            family = "tvector"
+        elif mode == "scalar_alias":
+            family = pick(["tvector", "tmatrix", "stensor", "tensor", "st2tost2"])
         if family in FLAT_OWNED_ONLY:
             shape = [family, integers(1, 8)]
         elif family == "tvector":
-            shape = ["tvector", integers(1, 6)]
+            shape = ["tvector", integers(1 if mode is None else 2, 6 if mode != "colrow" else 5)]
         elif family == "tmatrix":
-            shape = ["tmatrix", integers(1, 4), integers(1, 4)]
+            shape = ["tmatrix", integers(1, 4), integers(1 if mode is None else 2, 4)]
         elif family == "st2tost2":
             shape = ["st2tost2", integers(1, 2)]
         else:
             shape = [family, integers(1, 3)]
         P = {"shape": shape, "spaces": [{"shape": ["tvector", LBACK], "name": "bk"}], "operands": [],
              "cursor": integers(0, 6)}
+        if mode is not None:
+            P["mode"] = mode
+        patches = []  # (space, cell, k): data values forced after generation
 
         def datum():
             return integers(-200, 200)
@@ -194,11 +206,15 @@ def program_strategy():
             elif kind in ("row_view", "row_slice", "column_view", "column_slice"):
                 if kind == "row_view":
                     R, C, J = integers(1, 4), n, 0
+                    if mode == "colrow":
+                        R = pick([r for r in range(1, 6) if r != n])  # non-square host
                 elif kind == "row_slice":
                     J = integers(0, 2)
                     R, C = integers(1, 4), J + n + integers(0, 2)
                 elif kind == "column_view":
                     R, C, J = n, integers(1, 4), 0
+                    if mode == "colrow":
+                        C = pick([c for c in range(1, 6) if c != n])  # non-square host
                 else:
                     J = integers(0, 2)
                     R, C = J + n + integers(0, 2), integers(1, 4)
@@ -232,6 +248,36 @@ def program_strategy():
         scal = lambda: pick([2, -2, 3, 4, -1, 0.5, -0.5, 0.25])
         pow2 = lambda: pick([2, -2, 4, 0.5, -0.5, 8])
 
+        def dest_element(divisor):
+            """scalar operand that is an lvalue element of the destination, not its last component
+            (None when the destination has a single component)"""
+            d = P["operands"][P["dest"]]
+            sh, n = d["shape"], shape_size(d["shape"])
+            if n < 2:
+                return None
+            l = integers(0, n - 2)
+            one_index = sh[0] not in ("tmatrix", "st2tost2")
+            vias = ["paren"] + (["bracket"] if one_index else [])
+            if d["space"] == 0 or (d["kind"] == "owned" and sh[0] not in FLAT_OWNED_ONLY):
+                vias += ["view", "view"]
+            via = pick(vias)
+            k = P["dest"]
+            if via == "view":
+                if d["space"] == 0:
+                    o = {"shape": sh, "kind": "coalesced", "const": booleans(), "space": 0,
+                         "cells": list(d["cells"]), "twin": True}
+                else:
+                    o = {"shape": sh, "kind": "map_data", "const": booleans(), "space": d["space"],
+                         "cells": list(d["cells"]), "twin": True}
+                P["operands"].append(o)
+                k = len(P["operands"]) - 1
+            bracket = via == "bracket" or (via == "view" and one_index and booleans())
+            acc = ("[%d]" % l) if bracket else access(sh, "", l)
+            if divisor:
+                # exact division: the element is a power of two
+                patches.append((d["space"], d["cells"][l], pick([8, 16, -8, 4, -16, 32])))
+            return {"elem": k, "l": l, "via": via, "acc": acc, "space": d["space"], "cell": d["cells"][l]}
+
         def leaf(sh, aliasable):
             """a leaf of shape sh: a fresh operand, a reused one, or (when allowed) the destination"""
             same = [i for i, o in enumerate(P["operands"]) if o["shape"] == sh and (aliasable or i != P.get("dest"))
@@ -264,6 +310,11 @@ def program_strategy():
                 return [pick(["add", "sub"]), tree(sh, depth - 1, aliasable, prods), tree(sh, depth - 1, aliasable, prods)]
             if r == 5:
                 return ["neg", tree(sh, depth - 1, aliasable, prods)]
+            if r in (6, 7) and prods >= 2 and "dest" in P and integers(0, 4) == 0:
+                # scalar = element of the destination (counts as one product level for exactness)
+                S = dest_element(r == 7)
+                if S is not None:
+                    return [pick(["smul_l", "smul_r"]) if r == 6 else "sdiv", S, tree(sh, depth - 1, aliasable, prods - 1)]
             if r == 6:
                 return [pick(["smul_l", "smul_r"]), scal(), tree(sh, depth - 1, aliasable, prods)]
             if r == 7:
@@ -305,20 +356,54 @@ def program_strategy():
                         tree(sh, depth - 1, aliasable, q)]
             return [pick(["add", "sub"]), tree(sh, depth - 1, aliasable, prods), tree(sh, depth - 1, aliasable, prods)]
 
-        P["dest"] = make_operand(shape, True)
-        op = pick(["=", "=", "=", "=", "+=", "-=", "*=", "/="])
-        P["assign"] = op
-        if op in ("*=", "/="):
-            P["scalar"] = pow2()
-            P["expr"] = None
+        if mode == "colrow":
+            kind = pick(["column_view", "column_view", "row_view"])
+            if booleans():
+                # the view is written (and read back in half of the programs)
+                P["dest"] = make_operand(shape, True, [kind])
+                P["assign"] = pick(["=", "=", "+=", "-="])
+                e = tree(shape, pick([1, 2]), True)
+                P["expr"] = [pick(["add", "sub"]), ["leaf", P["dest"]], e] if booleans() else e
+            else:
+                # the mutable view is read
+                P["dest"] = make_operand(shape, True)
+                P["assign"] = pick(["=", "=", "+=", "-="])
+                v = ["leaf", make_operand(shape, True, [kind])]
+                P["expr"] = [pick(["add", "sub"]), v, tree(shape, pick([0, 1, 2]), True)]
+        elif mode == "scalar_alias":
+            P["dest"] = make_operand(shape, True)
+            P["assign"] = pick(["=", "=", "=", "+=", "-="])
+            form = integers(0, 4)
+            S = dest_element(form in (2, 4))
+            W = lambda: tree(shape, pick([0, 1, 2]), True, 1)
+            D = ["leaf", P["dest"]]
+            if form == 0:
+                P["expr"] = ["smul_l", S, W()]
+            elif form == 1:
+                P["expr"] = ["smul_r", S, W()]
+            elif form == 2:
+                P["expr"] = ["sdiv", S, D]
+            elif form == 3:
+                P["expr"] = ["add", ["smul_l", S, D], W()]
+            else:
+                P["expr"] = ["sub", W(), ["sdiv", S, W()]]
         else:
-            P["expr"] = tree(shape, pick([2, 3, 3, 1]), True)
+            P["dest"] = make_operand(shape, True)
+            op = pick(["=", "=", "=", "=", "+=", "-=", "*=", "/="])
+            P["assign"] = op
+            if op in ("*=", "/="):
+                P["scalar"] = pow2()
+                P["expr"] = None
+            else:
+                P["expr"] = tree(shape, pick([2, 3, 3, 1]), True)
         # values of the backing buffer: data under the operands, sentinels elsewhere
         used = set()
         for o in P["operands"]:
             if o["space"] == 0:
                 used.update(o["cells"])
         P["spaces"][0]["values"] = [datum() if i in used else None for i in range(LBACK)]
+        for sp, cell, k in patches:
+            P["spaces"][sp]["values"][cell] = k
         del P["cursor"]
         return P
 
@@ -349,6 +434,21 @@ def leaves_elementwise(e, under_product=False):
     for s in e[1:]:
         if isinstance(s, list):
             yield from leaves_elementwise(s, prod)
+
+
+def scalar_elements(e):
+    """scalar operands that are elements of an operand: the dicts stored in smul_l / smul_r / sdiv nodes"""
+    if e is None:
+        return []
+    return [n[1] for n in walk(e) if n[0] in ("smul_l", "smul_r", "sdiv") and isinstance(n[1], dict)]
+
+
+def used_operands(P):
+    used = {P["dest"]}
+    if P["expr"] is not None:
+        used |= {n[1] for n in walk(P["expr"]) if n[0] == "leaf"}
+        used |= {S["elem"] for S in scalar_elements(P["expr"])}
+    return used
 
 
 def well_formed(P):
@@ -389,6 +489,12 @@ def classify(P):
             if o["space"] == d["space"] and o["cells"] == d["cells"]:
                 alias = True
                 cl.append("alias.twin_view" if k != P["dest"] else "alias.same_object")
+    for S in scalar_elements(P["expr"]):
+        alias = True
+        used.add(S["elem"])
+        cl.append("alias.scalar_element." + S["via"])
+    if P.get("mode"):
+        cl.append("quota." + P["mode"])
     views = False
     for k in used:
         o = P["operands"][k]
@@ -402,7 +508,13 @@ def classify(P):
 
 
 # ------------------------------------------------------------------ C++ emission
-def num(x):
+def num(x, names=None):
+    """C++ spelling of a scalar operand: a literal, or (names given) an element of an operand;
+    without names: the value the element held BEFORE the statement (eager semantic)"""
+    if isinstance(x, dict):
+        if names is None:
+            return "ref%d[%d]" % (x["space"], x["cell"])
+        return names[x["elem"]] + x["acc"]
     return repr(float(x))
 
 
@@ -423,6 +535,8 @@ def decl_operand(P, k, out):
         out.append("auto %s = map<%s, %du>(%s);" % (name, CT, o["off"], "cbk" if o["const"] else "bk"))
     elif kind == "strided":
         out.append("auto %s = map_strided<%s>(%s + %d, %d);" % (name, CT, "cbuf" if o["const"] else "buf", o["off"], o["stride"]))
+    elif kind == "map_data":
+        out.append("auto %s = map<%s>(%s.data());" % (name, CT, ("c" + sp) if o["const"] else sp))
     elif kind == "coalesced":
         ptr, base = ("const double*", "cbuf") if o["const"] else ("double*", "buf")
         out.append("std::array<%s, %d> p%d{%s};" % (ptr, n, k, ", ".join("%s + %d" % (base, c) for c in o["cells"])))
@@ -467,11 +581,11 @@ def tfel_expr(e, names):
     if k == "sub":
         return "(%s - %s)" % (tfel_expr(e[1], names), tfel_expr(e[2], names))
     if k == "smul_l":
-        return "(%s * %s)" % (num(e[1]), tfel_expr(e[2], names))
+        return "(%s * %s)" % (num(e[1], names), tfel_expr(e[2], names))
     if k == "smul_r":
-        return "(%s * %s)" % (tfel_expr(e[2], names), num(e[1]))
+        return "(%s * %s)" % (tfel_expr(e[2], names), num(e[1], names))
     if k == "sdiv":
-        return "(%s / %s)" % (tfel_expr(e[2], names), num(e[1]))
+        return "(%s / %s)" % (tfel_expr(e[2], names), num(e[1], names))
     if k == "eval":
         return "eval(%s)" % tfel_expr(e[1], names)
     if k in ("matvec", "matmat", "st2s", "sst2"):
@@ -608,10 +722,7 @@ def emit_program(P, idx):
         L.append("double ref%d[%d]; for (int i = 0; i < %d; ++i) ref%d[i] = init%d[i];" % (s, n, n, s, s))
     # operands
     names = {}
-    used = {P["dest"]}
-    if P["expr"] is not None:
-        used |= {n[1] for n in walk(P["expr"]) if n[0] == "leaf"}
-    for k in sorted(used):
+    for k in sorted(used_operands(P)):
         names[k] = decl_operand(P, k, L)
     d = P["operands"][P["dest"]]
     dn = shape_size(d["shape"])
@@ -825,35 +936,43 @@ def main():
     ntu = int(param("tus", 1))            # translation units of this shard
     # Hypothesis is used as the program generator: one example = one program (the very first
     # example of a run is Hypothesis' minimal one, the others are random)
-    pool = []
-
-    @seed(SEED)
-    @settings(max_examples=4 * K * ntu + 20, database=None, deadline=None, derandomize=False,
-              suppress_health_check=list(HealthCheck), phases=[Phase.generate])
-    @given(program_strategy())
-    def gen(P):
-        pool.append(P)
-
-    gen()
-    batches = []
-    cur = []
+    QA = int(param("quota_colrow", 6))         # programs per TU using a mutable whole column/row view of a non-square matrix
+    QB = int(param("quota_scalar_alias", 10))  # programs per TU whose scalar operand is an element of the destination
     seen = set()
-    for P in pool:
-        h = hashlib.sha1(json.dumps(P, sort_keys=True).encode()).hexdigest()
-        if h in seen:
-            continue  # Hypothesis repeats examples; a program is only compiled once
-        seen.add(h)
-        if not well_formed(P):
-            u.discard("programs")
-            continue
-        cur.append(P)
-        if len(cur) == K:
+
+    def draw_programs(mode, count, offset):
+        pool, good = [], []
+
+        @seed(SEED * 16 + offset)
+        @settings(max_examples=4 * count + 20, database=None, deadline=None, derandomize=False,
+                  suppress_health_check=list(HealthCheck), phases=[Phase.generate])
+        @given(program_strategy(mode))
+        def gen(P):
+            pool.append(P)
+
+        gen()
+        for P in pool:
+            h = hashlib.sha1(json.dumps(P, sort_keys=True).encode()).hexdigest()
+            if h in seen:
+                continue  # Hypothesis repeats examples; a program is only compiled once
+            seen.add(h)
+            if not well_formed(P):
+                u.discard("programs")
+                continue
+            good.append(P)
+            if len(good) == count:
+                break
+        return good
+
+    qa = draw_programs("colrow", QA * ntu, 1)
+    qb = draw_programs("scalar_alias", QB * ntu, 2)
+    free = draw_programs(None, max(0, K - QA - QB) * ntu, 0)
+    batches = []
+    nfree = max(0, K - QA - QB)
+    for b in range(ntu):
+        cur = qa[b * QA:(b + 1) * QA] + qb[b * QB:(b + 1) * QB] + free[b * nfree:(b + 1) * nfree]
+        if cur:
             batches.append(cur)
-            cur = []
-        if len(batches) == ntu:
-            break
-    if cur and len(batches) < ntu:
-        batches.append(cur)
     t0 = time.time()
     broken = []
     reduce_budget = [int(param("reduce_budget", 6))]
